@@ -13,7 +13,7 @@ REQUIRED = ["safety_any_schedule", "unsolicited_responses_change_no_dag", "chunk
             "pull_round_result", "stuck_both_ways_same", "round_progress", "converges", "stable_after_convergence", "rounds_are_schedules", "range_reply_sorted_prefixclosed",
             "fact_constants", "fact_blockable", "fact_transaction_set_shape", "fact_transaction_list_shape", "fact_gossip_condition",
             "fact_handled_envelopes", "fact_liveness_constants", "fact_dispatch_and_wiring", "chunks_fit_message_limit", "fact_chunk_accounting", "fact_add_mutex_release", "add_mutex_released_on_every_exit", "deferred_once_releases_exactly_once", "hooks_alone_leave_mutex_locked", "fact_gossip_peer_table_keys", "disconnect_removes_queue", "reconnect_gets_fresh_queue", "connect_then_disconnect_leaves_no_entry",
-            "iblt_bucket_indices_distinct_in_range", "iblt_subtract_represents_difference", "iblt_decode_contract", "iblt_garbage_and_size_mismatch_err",
+            "iblt_bucket_indices_distinct_in_range", "iblt_subtract_represents_difference", "iblt_decode_contract", "iblt_garbage_and_size_mismatch_err", "modelled_iblt_satisfies_DC", "liveness_hypotheses_with_modelled_iblt",
             "fact_iblt_constants", "fact_iblt_bucket_indices_shape", "fact_iblt_decode_shape", "fact_iblt_bucket_ops"]
 
 
@@ -52,6 +52,7 @@ def run_iblt(ctx):
     ops = ctx.read_lines(ops_p)
     res_classes, shapes = Counter(), Counter()
     n_bad, n_idx, per_sig = 0, 0, Counter()
+    n_cyc = [0]
 
     def viol(sig, what, i):
         nonlocal n_bad
@@ -74,8 +75,10 @@ def run_iblt(ctx):
         if o["op"] == "bidx":
             n_idx += 1
             idx = [int(x) for x in re.search(r"\[(.*)\]", l).group(1).split(",") if x]
+            if o.get("h"):
+                n_cyc[0] += 1
             if len(set(idx)) != len(idx) or any(x >= o["n"] for x in idx) or len(idx) != min(6, o["n"]):
-                viol("C07:iblt-bucket-indices-malformed", f"bucketIndices for {o['n']} buckets, key {o['v']} = {idx}: must be min(k,n) distinct indices below n "
+                viol("C07:iblt-bucket-indices-malformed", f"bucketIndices for {o['n']} buckets, key {o['v']} / key hash {o.get('h')} = {idx}: must be min(k,n) distinct indices below n "
                      "(Insert and Delete of one key would not cancel / a key would never be pure)", i)
             continue
         if o["op"] != "iblt":
@@ -104,6 +107,8 @@ def run_iblt(ctx):
     if not ctx.replay:
         want = ["ok", "fail", "loop(forged)", "sub=err(forged)", "ok(forged)"]
         miss = [w for w in want if res_classes[w] == 0]
+        if n_cyc[0] == 0:
+            miss.append("bucketIndices on a short cycle of the hash chain (linear probing)")
         ctx.oblige("generator-reaches-the-iblt-outcomes", not miss, f"not reached: {miss}; reached {dict(res_classes)}")
     if bad:
         i = bad[0]
@@ -115,7 +120,7 @@ def run_iblt(ctx):
             ctx.unproved(["correspondence C07 IBLT (tree.Iblt != NutsModel/C07/Iblt.lean)"], detail + f"\nreplay ops: {ctx.replay_dir()}/iblt-correspondence.jsonl")
     else:
         ctx.oblige("correspondence:iblt-model=impl", True, f"{len(impl)} lines equal")
-    ctx.cov["iblt_leg"] = {"decode_ops_by_outcome": dict(res_classes), "shapes": dict(shapes), "bucket_index_ops": n_idx, "lines_equal": len(impl) - len(bad)}
+    ctx.cov["iblt_leg"] = {"decode_ops_by_outcome": dict(res_classes), "shapes": dict(shapes), "bucket_index_ops": n_idx, "bucket_index_ops_on_short_chain_cycles(linear probing)": n_cyc[0], "lines_equal": len(impl) - len(bad)}
 
 
 def scenario_slices(ops):
